@@ -102,4 +102,128 @@ def deleteRecordsRequired (v011 : Int) : Int :=
 def deleteGroupsRequired (v110 : Int) : Int :=
   v110
 
+/-- generated from admin.go (*clusterAdmin).retryOnError (fragment starting at `err = fn()`) -/
+def retryLoopBody (err0 : Int) (nilErr : Int) (retry : Bool) (r : Int) : Int × Int :=
+  let err0_v1 : Int := r
+  if ((err0_v1 = nilErr) ∨ (¬ (retry = true))) then
+    (3, err0_v1)
+  else
+    (1, 0)
+
+/-- generated from admin.go isErrNoController (fragment starting at `return e.Err == ErrNotController`) -/
+def isNoCtrlTopicError (code : Int) : Bool :=
+  (decide (code = 41))
+
+/-- generated from admin.go isErrNoController (fragment starting at `return e == ErrNotController`) -/
+def isNoCtrlKError (code : Int) : Bool :=
+  (decide (code = 41))
+
+/-- generated from admin.go isErrNoController (fragment starting at `return false`) -/
+def isNoCtrlDefault  : Bool :=
+  false
+
+/-- generated from admin.go (*clusterAdmin).CreateTopic (fragment starting at `b, err := ca.Controller()`) -/
+def createTopicClosure (nilErr : Int) (eInc : Int) (r0 : Bool) (one : Bool) (ctlErr : Int) (sendErr : Int) (present : Bool) (code : Int) (terr : Int) : Int × Bool :=
+  let err_v1 : Int := ctlErr
+  if (err_v1 ≠ nilErr) then
+    (err_v1, r0)
+  else
+    let err_v2 : Int := sendErr
+    if (err_v2 ≠ nilErr) then
+      (err_v2, r0)
+    else
+      let ok_v1 : Bool := present
+      let topicErr_v1 : Int := terr
+      if (¬ (ok_v1 = true)) then
+        (eInc, r0)
+      else
+        if (code ≠ 0) then
+          if (code = 41) then
+            let r0_v1 : Bool := one
+            (topicErr_v1, r0_v1)
+          else
+            (topicErr_v1, r0)
+        else
+          (nilErr, r0)
+
+/-- generated from admin.go (*clusterAdmin).DeleteTopic (fragment starting at `b, err := ca.Controller()`) -/
+def deleteTopicClosure (nilErr : Int) (eInc : Int) (r0 : Bool) (one : Bool) (ctlErr : Int) (sendErr : Int) (present : Bool) (code : Int) : Int × Bool :=
+  let err_v1 : Int := ctlErr
+  if (err_v1 ≠ nilErr) then
+    (err_v1, r0)
+  else
+    let err_v2 : Int := sendErr
+    if (err_v2 ≠ nilErr) then
+      (err_v2, r0)
+    else
+      let ok_v1 : Bool := present
+      let topicErr_v1 : Int := code
+      if (¬ (ok_v1 = true)) then
+        (eInc, r0)
+      else
+        if (topicErr_v1 ≠ 0) then
+          if (topicErr_v1 = 41) then
+            let r0_v1 : Bool := one
+            (topicErr_v1, r0_v1)
+          else
+            (topicErr_v1, r0)
+        else
+          (nilErr, r0)
+
+/-- generated from admin.go (*clusterAdmin).CreatePartitions (fragment starting at `b, err := ca.Controller()`) -/
+def createPartitionsClosure (nilErr : Int) (eInc : Int) (r0 : Bool) (one : Bool) (ctlErr : Int) (sendErr : Int) (present : Bool) (code : Int) (terr : Int) : Int × Bool :=
+  let err_v1 : Int := ctlErr
+  if (err_v1 ≠ nilErr) then
+    (err_v1, r0)
+  else
+    let err_v2 : Int := sendErr
+    if (err_v2 ≠ nilErr) then
+      (err_v2, r0)
+    else
+      let ok_v1 : Bool := present
+      let topicErr_v1 : Int := terr
+      if (¬ (ok_v1 = true)) then
+        (eInc, r0)
+      else
+        if (code ≠ 0) then
+          if (code = 41) then
+            let r0_v1 : Bool := one
+            (topicErr_v1, r0_v1)
+          else
+            (topicErr_v1, r0)
+        else
+          (nilErr, r0)
+
+/-- generated from admin.go (*clusterAdmin).AlterPartitionReassignments (fragment starting at `if rsp.ErrorCode == ErrNotController`) -/
+def reassignNotController (top : Int) (r0 : Bool) (one : Bool) : Int × Int × Bool :=
+  if (top = 41) then
+    let r0_v1 : Bool := one
+    (3, top, r0_v1)
+  else
+    (0, 0, r0)
+
+/-- generated from admin.go (*clusterAdmin).AlterPartitionReassignments (fragment starting at `if rsp.ErrorCode != ErrNoError`) -/
+def reassignTopError (top : Int) (errs0 : Int) (appended : Int) : Int :=
+  if (top ≠ 0) then
+    let errs0_v1 : Int := appended
+    errs0_v1
+  else
+    errs0
+
+/-- generated from admin.go (*clusterAdmin).AlterPartitionReassignments (fragment starting at `if partitionError.errorCode != ErrNoError`) -/
+def reassignPartitionError (code : Int) (errs0 : Int) (txt : Int) (appended : Int) : Int :=
+  if (code ≠ 0) then
+    let errStr_v1 : Int := txt
+    let errs0_v1 : Int := appended
+    errs0_v1
+  else
+    errs0
+
+/-- generated from admin.go (*clusterAdmin).AlterPartitionReassignments (fragment starting at `if len(errs) > 0`) -/
+def reassignResult (n : Int) (wrapped : Int) (nilErr : Int) : Int :=
+  if (n > 0) then
+    wrapped
+  else
+    nilErr
+
 end Gen.C19
